@@ -82,6 +82,56 @@ func runCase(c Case) result {
 		}
 	}()
 
+	// reference path: the same mechanism (resettable timer -> loop goroutine ->
+	// single-slot channel -> consumer goroutine) driven by the same strobes,
+	// built here from scratch; how late ITS signals arrive measures the
+	// scheduling latency of exactly this kind of path during this scenario.
+	var maxRefLate atomic.Int64
+	refStrobes := make(chan struct{}, 64)
+	refSignals := make(chan int64, 1)
+	stopRef := make(chan struct{})
+	var refWG sync.WaitGroup
+	refWG.Add(2)
+	go func() {
+		defer refWG.Done()
+		timer := time.NewTimer(time.Hour)
+		timer.Stop()
+		var due int64
+		for {
+			select {
+			case <-stopRef:
+				timer.Stop()
+				return
+			case <-refStrobes:
+				timer.Stop()
+				select {
+				case <-timer.C:
+				default:
+				}
+				due = us() + int64(c.WindowUs)
+				timer.Reset(window)
+			case <-timer.C:
+				select {
+				case refSignals <- due:
+				default:
+				}
+			}
+		}
+	}()
+	go func() {
+		defer refWG.Done()
+		for {
+			select {
+			case due := <-refSignals:
+				if late := us() - due; late > maxRefLate.Load() {
+					maxRefLate.Store(late)
+				}
+			case <-stopRef:
+				return
+			}
+		}
+	}()
+
 	stopConsumer := make(chan struct{})
 	consumerDone := make(chan struct{})
 	signals := 0
@@ -112,6 +162,10 @@ func runCase(c Case) result {
 			cT := us()
 			co.Strobe()
 			rT := us()
+			select {
+			case refStrobes <- struct{}{}:
+			default:
+			}
 			add(s, fmt.Sprintf("S %d %d", cT, rT))
 			strobes++
 		case "T":
@@ -132,14 +186,7 @@ func runCase(c Case) result {
 		}
 	}
 	// keep observing for a window plus generous slack, then stop
-	finalWait := 45 * time.Millisecond
-	if j := time.Duration(3*maxJitter.Load()+25000) * time.Microsecond; j > finalWait {
-		finalWait = j
-	}
-	if finalWait > 400*time.Millisecond {
-		finalWait = 400 * time.Millisecond
-	}
-	time.Sleep(window + finalWait)
+	time.Sleep(window + 100*time.Millisecond)
 	if !c.Listen {
 		select {
 		case <-co.Signals():
@@ -154,10 +201,23 @@ func runCase(c Case) result {
 	add(seq.Add(1), fmt.Sprintf("E %d", us()))
 	close(stopCanary)
 	<-canaryDone
+	close(stopRef)
+	refWG.Wait()
 	co.Terminate()
 
+	// Slack: at least 15 ms. If the sleep canary or the reference path saw more
+	// than 15 ms of scheduling latency the machine is overloaded: deadlines are
+	// then not checked at all (slack 10 s), only the facts that do not depend on
+	// timing remain.
+	jitter := maxJitter.Load()
+	if l := maxRefLate.Load(); l > jitter {
+		jitter = l
+	}
 	slack := int64(15000)
-	if j := 3*maxJitter.Load() + 5000; j > slack {
+	overloaded := jitter > 15000
+	if overloaded {
+		slack = 10000000
+	} else if j := 3*jitter + 10000; j > slack {
 		slack = j
 	}
 	sort.Slice(evs, func(i, j int) bool { return evs[i].seq < evs[j].seq })
@@ -175,12 +235,12 @@ func runCase(c Case) result {
 		tags = append(tags, "terminated")
 	}
 	switch {
+	case overloaded:
+		tags = append(tags, "slack:overloaded-no-deadline-claims")
 	case slack == 15000:
 		tags = append(tags, "slack:15ms")
-	case slack <= 40000:
-		tags = append(tags, "slack:<=40ms")
 	default:
-		tags = append(tags, "slack:>40ms")
+		tags = append(tags, "slack:16-55ms")
 	}
 	prevGap := ""
 	for _, st := range c.Steps {
@@ -207,10 +267,10 @@ const header = "From Coq Require Import List Arith NArith.\nImport ListNotations
 func main() {
 	cfg := hx.Parse()
 	w := hx.NewWriter(cfg, header, "ccase", "coalescer_failures", 250)
-	w.Rule = "a case = one scenario run against the real Coalescer, recorded as a timed history (microseconds): strobe call/return, signal received, channel polled empty, Terminate call/return, end of observation; slack = max(15 ms, 3 x measured sleep jitter + 5 ms); distinct = distinct histories; non-trivial = at least two strobes and at least one signal"
+	w.Rule = "a case = one scenario run against the real Coalescer, recorded as a timed history (microseconds): strobe call/return, signal received, channel polled empty, Terminate call/return, end of observation; slack = max(15 ms, 3 x measured scheduling latency + 10 ms), or no deadline claims at all when that latency (sleep canary and a reference timer->goroutine->channel->goroutine path run alongside) exceeded 15 ms; distinct = distinct histories; non-trivial = at least two strobes and at least one signal"
 
 	runBatch := func(cases []Case, origin string) {
-		const par = 32
+		const par = 16
 		for lo := 0; lo < len(cases) && !w.Aborted; lo += par {
 			hi := min(lo+par, len(cases))
 			res := make([]result, hi-lo)
